@@ -295,7 +295,8 @@ Definition frame_wf (n : nat) (f : frame) : Prop :=
   | FDisp130 o d _ _ => 0 < d
   | FDispDo _ d _ _ => 0 <= d
   | FDisp117 _ d _ _ _ | FKids d _ _ _ | FKid118 _ d _ _ _ => 0 <= d
-  | FKid119 c wc nxt d _ _ _ => 0 <= d /\ exists e, nxt = with_epoch (sub_strong wc 1) e
+  | FKid119 c wc nxt d ne curr _ => 0 <= d /\ (exists e, nxt = with_epoch (sub_strong wc 1) e) /\
+      nxt = with_epoch (sub_strong wc 1) (wrap 64 (child_stamp curr ne (snd c) (epoch wc)))
   | FIncW103 _ cnt | FIncW105 _ cnt => 0 < cnt < LIM
   | FIncW104 _ cnt old => 0 < cnt < LIM /\ weaked old = false
   | FIsND108 o c | FIsND109 o _ _ c => (cdst c < n)%nat /\ nostrong (cok c) /\ nostrong (cfail c)
@@ -1348,7 +1349,7 @@ Lemma micro_inv_FKid119 s t rec s' obs x k c wc nxt depth ne curr outs :
   micro s t rec = Some (s', obs) -> Step s s'.
 Proof.
   intros HI HB HB' Hx Hf Hm. open_micro Hm Hx Hf. prep HI Hx Hf HA HN HT Wx Sx Hfw Hst.
-  cbn in Hwf0. destruct Hwf0 as (Hdep & e & Hnxt).
+  cbn in Hwf0. destruct Hwf0 as (Hdep & (e & Hnxt) & _).
   destruct (geto s (fst c)) as [ob|] eqn:Hg; [|inversion Hm; subst; kill_err HB HB'].
   destruct (Z.eqb_spec (word ob) wc) as [<-|Hne].
   2:{ inversion Hm; subst; clear Hm. fr1 rc_eq_refl. }
@@ -3048,7 +3049,7 @@ Lemma kid119_facts s t x k c nxt depth ne curr outs ob :
   1 <= strong (word ob) /\ exists e, nxt = with_epoch (sub_strong (word ob) 1) e.
 Proof.
   intros HI Hx Hf Hg. prep HI Hx Hf HA HN HT Wx Sx Hfw Hst.
-  destruct Hwf0 as (Hdep & e & Hnxt). split; [|eauto].
+  destruct Hwf0 as (Hdep & (e & Hnxt) & _). split; [|eauto].
   pose proof (HA _ _ Hg) as Hinv.
   pose proof (owners_ge_top s t x (fst c) _ _ (Inv'_all_wf _ HI) Hx Hf) as Hown. cbn [frame_strong] in Hown.
   rewrite is_o_eq in Hown. pose proof (sumZ_is_o_nonneg (fst c) outs).
